@@ -13,10 +13,10 @@ RULE = ("call sequences (same a / changing m, same m / changing a, interleaved j
         "inverse_mod: m in [-6, 200) x a in [-2m-1, 2m+1], large m with negative/zero/oversized a, non-coprime pairs, m = 0, 1, -1; "
         "polynomial helpers on random short lists; a case is distinct by its operation line; non-trivial = all")
 ASSUMPTIONS = [
-    "no RecursionError: numbertheory.jacobi is RECURSIVE; proved (C15.jacobi_recursion_depth): at most 2*floor(log2 n)+3 nested calls, i.e. "
-    "<= 2k+1 frames for a k-bit modulus, below CPython's default recursion limit 1000 (minus caller frames) for moduli up to ~480 bits; "
-    "for the 512/521-bit curve moduli the depth measured in the search is ~0.4 per bit (recorded in the evidence, must stay < 600); "
-    "from ~4096-bit moduli on a RecursionError is possible and is NOT modelled",
+    "no RecursionError: numbertheory.jacobi is RECURSIVE; proved (C15.jacobi_recursion_depth_tight): at most floor(log2 n)+3 nested calls, i.e. "
+    "<= k+2 frames for a k-bit modulus (one frame per bit; sharp up to the constant), below CPython's default recursion limit 1000 (minus caller "
+    "frames) for every modulus in use (<= 521 bits: <= 523 frames) and up to ~900 bits; the depth measured in the search is ~0.4 per bit "
+    "(recorded in the evidence, must stay < 600); from ~1000-bit moduli on a RecursionError is possible for adversarial a and is NOT modelled",
     "pow(a, -1, m) and pow(b, e, m) are CPython primitives: modelled (extended Euclid / square-and-multiply), tied by correspondence",
     "sqrt theorems assume p prime (hypothesis Nat.Prime p); primality of the 34 curve constants is proved from kernel-checked Pocklington certificates (Props/NamedPrimes)",
     "the gmpy/gmpy2 variants of inverse_mod are not modelled (not installed); the pre-3.8 fallback loop is translated and proved equal "
